@@ -1,6 +1,6 @@
 """C14 — YAML, TOML, Python, XML and INI manifestation denote the same data.
 
-Theorems: coq/theories/C14 (bare_safe sound for every byte string outside two known classes,
+Theorems: coq/theories/C14 (bare_safe sound for every byte string,
 against the YAML 1.2 core-schema and YAML 1.1 resolver regexes; TOML bare keys; the JSON escaper's
 output is a TOML basic string / Python literal / YAML double-quoted scalar for the same bytes (over
 C05's table); XML escaping round-trips; domain rejections).
@@ -33,10 +33,6 @@ IMPORTS = ("From Coq Require Import List NArith.\n"
            "From JrV Require Import Gen.GenEscape Gen.GenYaml Gen.GenToml Gen.GenXml C05.Model C14.Model.\n"
            "Import ListNotations.\nOpen Scope N_scope.\n")
 
-K_OCT = "C14-yaml-bare-octal-0o"
-K_DOCEND = "C14-yaml-bare-document-end"
-K_TOML_EMPTY = "C14-toml-empty-bare-key"
-K_TOML_DEL = "C14-toml-del-raw"
 K_XML_CTRL = "C14-xml-non-xml-characters-not-rejected"
 K_XML_WS = "C14-xml-whitespace-not-character-reference"
 K_PAD = "C14-yaml-cli-line-padding-misaligns-objects-in-arrays"
@@ -105,19 +101,11 @@ def py_plain_ok(s):
 
 # serde-saphyr resolves more plain scalars to numbers than YAML 1.1 or 1.2 define (upper-case radix prefixes, bare
 # nan / inf): strings of this class that the SPEC calls plain strings are not judged through std.parseYaml
-SAPHYR_LENIENT = re.compile(r"[-+]?(0[BXObxo][0-9A-Fa-f_]+|[nN][aA][nN]|[iI][nN][fF]([iI][nN][iI][tT][yY])?)")
+SAPHYR_LENIENT = re.compile(r"[-+]?(0[BXObxo][0-9A-Fa-f_]+|\.?[nN][aA][nN]|\.?[iI][nN][fF]([iI][nN][iI][tT][yY])?)")
 
 
 def saphyr_lenient(s):
     return py_plain_ok(s) and bool(SAPHYR_LENIENT.fullmatch(s))
-
-
-def py_known_bare(s):
-    if re.fullmatch(r"0o[0-7]+", s):
-        return K_OCT
-    if s == "...":
-        return K_DOCEND
-    return None
 
 
 def block_safe(s):
@@ -264,7 +252,7 @@ def string_program(s):
 def string_model(s):
     b = cq_s(s)
     one = "(JNum [49])"
-    return ("(let sb := {lit} in (bare_safe {b}, yaml_plain_okb {b}, known_yaml_bare {b}, bare_allowed {b}, block_safe {b}, "
+    return ("(let sb := {lit} in (bare_safe {b}, yaml_plain_okb {b}, bare_allowed {b}, block_safe {b}, "
             "[yaml_manifest (fmt_yaml_std false false) (JObj [({b}, {one})]); "
             "yaml_manifest (fmt_yaml_std yaml_doc_default_indent_array yaml_doc_default_quote_keys) (JObj [({b}, JStr {b})]); "
             "yaml_manifest (fmt_yaml_std false false) (JArr [JStr {b}]); "
@@ -357,11 +345,11 @@ def part_strings(run, binary, failures, model_diffs):
         if isinstance(m, tuple) and m and m[0] == "ERROR":
             run.obligation("model.eval", False, str(m[1])[:300])
             continue
-        m_bare, m_ok, m_known, m_tbare, m_block, m_texts = m
+        m_bare, m_ok, m_tbare, m_block, m_texts = m
         # --- spec executables agree (Coq yaml_plain_okb vs Python re; block_safe twice)
-        if m_ok != py_plain_ok(s) or bool(m_known) != bool(py_known_bare(s)) or m_block != block_safe(s):
-            model_diffs.append({"case": case, "model": f"plain_ok={m_ok} known={m_known} block_safe={m_block}",
-                                "code": f"python spec: plain_ok={py_plain_ok(s)} known={py_known_bare(s)} block_safe={block_safe(s)}"})
+        if m_ok != py_plain_ok(s) or m_block != block_safe(s):
+            model_diffs.append({"case": case, "model": f"plain_ok={m_ok} block_safe={m_block}",
+                                "code": f"python spec: plain_ok={py_plain_ok(s)} block_safe={block_safe(s)}"})
         # --- impl-model == code, byte for byte
         for name, mt in zip(MODEL_NAMES, m_texts):
             mt = dec(mt)
@@ -376,7 +364,7 @@ def part_strings(run, binary, failures, model_diffs):
         for where, bare in (("key", real_bare_key), ("cli value", real_bare_val)):
             if bare and not py_plain_ok(s):
                 fail(f"yaml bare {where}", "emitted unquoted although a YAML 1.1/1.2 reader does not resolve it to this string",
-                     "quoted", s, known=py_known_bare(s))
+                     "quoted", s)
         # --- YAML read back
         single = "\n" not in s
         for name, expect in (("yk", {s: 1.0}), ("yq", {s: s}), ("yv", [s]), ("cli -f yaml", [s]), ("cli -y", s)):
@@ -392,17 +380,15 @@ def part_strings(run, binary, failures, model_diffs):
                 if name.startswith("cli") and saphyr_lenient(s):
                     run.count("oracle-lenient:saphyr-resolves-spec-string-as-number")
                     continue
-                kn = py_known_bare(s) if name.startswith("cli") else None
                 fail(name, "std.parseYaml (serde-saphyr) does not read the emitted YAML back as the input", repr(expect)[:200],
-                     {"text": texts[name][:200], "read": a if "ok" not in a else repr(got)[:200]}, known=kn)
+                     {"text": texts[name][:200], "read": a if "ok" not in a else repr(got)[:200]})
         # --- TOML
         try:
             got = tomllib.loads(texts["toml"])
             if got != {s: s}:
                 fail("toml", "tomllib reads the output back as different data", {s: s}, repr(got)[:200])
         except (tomllib.TOMLDecodeError, ValueError) as e:
-            kn = K_TOML_EMPTY if s == "" else K_TOML_DEL if "\x7f" in s else None
-            fail("toml", f"output is not TOML ({str(e)[:80]})", {s: s}, texts["toml"][:200], known=kn)
+            fail("toml", f"output is not TOML ({str(e)[:80]})", {s: s}, texts["toml"][:200])
         # --- Python
         try:
             got = ast.literal_eval(texts["py"])
@@ -660,16 +646,12 @@ def part_trees(run, binary, failures, model_diffs):
         # ---- TOML read back
         for nm in ("toml", "tomlex", "cli -f toml", "cli -f toml --line-padding 0"):
             if nm in texts and toml_dom:
-                allk = strs_of(v)
-                kn = K_TOML_EMPTY if "" in [k for k in allk] and _has_empty_key(v) else None
                 try:
                     d = same(v, tomllib.loads(texts[nm]))
                     if d:
                         fail(nm, f"tomllib reads the output back as different data ({d})", J.show(v), texts[nm][:300])
                 except (tomllib.TOMLDecodeError, ValueError, RecursionError) as e:
-                    if kn is None and any("\x7f" in s for s in allk):
-                        kn = K_TOML_DEL
-                    fail(nm, f"output is not TOML ({str(e)[:80]})", J.show(v), texts[nm][:300], known=kn)
+                    fail(nm, f"output is not TOML ({str(e)[:80]})", J.show(v), texts[nm][:300])
         # ---- Python read back
         for nm in ("std-python", "python"):
             if nm in texts:
@@ -730,14 +712,6 @@ def part_trees(run, binary, failures, model_diffs):
                 continue
             if nm == "cli -f yaml --line-padding 4" and pad_trap(v):
                 kn = K_PAD
-            elif nm.startswith("cli"):   # quote_values = false: a bare string value may be a known-unsound one
-                ks = [py_known_bare(s) for s in strs_of(v, keys=False)]
-                ks = [k for k in ks if k]
-                # `...` is only harmful at the top level, `0o7` anywhere
-                if K_OCT in ks:
-                    kn = K_OCT
-                elif v == ("str", "..."):
-                    kn = K_DOCEND
             f = {"case": {"jsonnet": src, "path": nm, "value": J.show(v)},
                  "summary": f"C14 [{nm}] std.parseYaml (serde-saphyr) does not read the emitted YAML back as the input ({d}): {src[:160]}",
                  "what": "yaml read-back differs", "expected": J.show(expect), "got": t[:300]}
@@ -754,14 +728,6 @@ def pad_trap(v):
         return any((x[0] == "obj" and len(x[1]) >= 2) or pad_trap(x) for x in v[1])
     if v[0] == "obj":
         return any(pad_trap(x) for _, x in v[1])
-    return False
-
-
-def _has_empty_key(v):
-    if v[0] == "obj":
-        return any(k == "" or _has_empty_key(x) for k, x in v[1])
-    if v[0] == "arr":
-        return any(_has_empty_key(x) for x in v[1])
     return False
 
 
@@ -979,8 +945,11 @@ def part_misc(run, binary, failures, model_diffs):
 
 # ------------------------------------------------------------------ known findings must still reproduce
 def known_still_reproduce(run, failures):
+    """props/c14.meta.json is the source of the known list (known_findings.json is assembled from it and may lag)"""
+    import os
     hit = {f.get("known") for f in failures if f.get("known")}
-    for k in core.load_known(run.prop):
+    meta = json.load(open(os.path.join(core.VERIF, "props", "c14.meta.json"), encoding="utf-8"))
+    for k in meta.get("known_findings", []):
         run.obligation(f"known-finding-reproduces:{k['id']}", k["id"] in hit,
                        "the finding no longer reproduces: remove it from props/c14.meta.json and drop its class from the theorem")
 
